@@ -34,6 +34,13 @@ CONF['C10'] = dict(lab='routing', trace='Trace_Routing', gens=[], extra=routing_
                    checker='tlc MC_Routing.cfg (22 644-point table); vh routing; tlc Trace_Routing.cfg')
 
 
+CONF['C20'] = dict(lab='richerr', trace='Trace_RichErr', gens=[('richerr', 0)],
+                   assumptions=['field values are compared in a canonical projection (strings as bytes, metadata maps sorted by key) that the harness applies identically to the attached and the recovered details',
+                                'the embedded google.rpc.Status is read by the specification\'s own protobuf reader (Bytes!ProtoParse)',
+                                'for undecodable details the property only demands "an error or an empty result, never a panic"'],
+                   checker='vh richerr; tlc Trace_RichErr.cfg')
+
+
 def _filter(prop):
     return lambda c: c.startswith(prop + '.') or c in ('NoPanic', 'NoHang')
 
